@@ -2,12 +2,13 @@
    parseFromTableReference / parseSelectWithSetOperations (select.go), parseWithStatement / parseCommonTableExpr /
    parseMainStatementAfterWith (cte.go), parseInsertStatement / parseUpdateStatement / parseDeleteStatement /
    parseReturningColumns (dml.go), parseQualifiedName / canBeAlias / isNonReservedKeyword (parser.go),
-   parseNullsClause (window.go) — function by function over the converted token list, with the cursor and the depth
+   parseNullsClause (window.go), parseGroupingSets (grouping.go), parseForClause (select.go), parseMergeStatement /
+   parseMergeWhenClause / parseMergeAction (dml.go) — function by function over the converted token list, with the cursor and the depth
    counter as in Model/ExprParse.v.  Expressions are read by [pe] (= parse_expression of Model/ExprParse.v).
 
    Branches that are not modelled return [Unmodelled] (the correspondence counts them): derived tables and LATERAL
-   sub-queries, ROLLUP / CUBE / GROUPING SETS, MySQL WITH ROLLUP, FETCH, FOR, ON CONFLICT / ON DUPLICATE KEY, CTE
-   bodies that are not SELECT, statements other than WITH / SELECT / INSERT / UPDATE / DELETE, the MySQL dialect.
+   sub-queries, MySQL WITH ROLLUP, ON DUPLICATE KEY, CTE bodies that are not SELECT, statements other than
+   WITH / SELECT / INSERT / UPDATE / DELETE / MERGE, the MySQL dialect.
 
    Defect switch (DEVGUIDE section 4): [d_no_alias_after_column] = the listed known finding
    `implicit-alias-bare-column` (an alias without AS after a bare column reference is not taken; the pinned tests
@@ -90,14 +91,7 @@ Definition paren_ident_list (ts : list token) : outcome (list string * list toke
   do (l, ts) <- ident_list (S (length ts)) [] ts;
   if negb (isT (cur ts) TyRParen) then Err EExpected else Val (l, advance ts).
 
-(* parseNullsClause *)
-Definition parse_nulls (ts : list token) : outcome (option bool * list token) :=
-  if isT (cur ts) TyNulls then
-    let ts := advance ts in
-    if isT (cur ts) TyFirst then Val (Some true, advance ts)
-    else if isT (cur ts) TyLast then Val (Some false, advance ts)
-    else Err EExpected
-  else Val (None, ts).
+(* parseNullsClause: [parse_nulls] of Model/ExprParse.v (the window specification uses it too) *)
 
 Definition set_with_select (w : gwith) (s : gselect) : gselect :=
   match s with GSelect _ d don cols from tn joins wh gb hv ob lim off fe fo => GSelect (Some w) d don cols from tn joins wh gb hv ob lim off fe fo end.
@@ -114,6 +108,7 @@ Definition set_with (w : gwith) (s : gstmt) : gstmt :=
   | GInsert _ t cols vals q ret oc od => GInsert (Some w) t cols vals q ret oc od
   | GUpdate _ t al asg from wh ret => GUpdate (Some w) t al asg from wh ret
   | GDelete _ t al us wh ret => GDelete (Some w) t al us wh ret
+  | GMerge _ _ _ _ _ _ => s            (* not reached: parseMainStatementAfterWith has no MERGE *)
   end.
 
 Section Stmt.
@@ -250,6 +245,35 @@ Section Stmt.
       if isT (cur ts) TyRParen then Err EInvalid
       else do (l, ts1) <- grouping_exprs (S (length ts)) d [] ts; Val (l, advance ts1).
 
+  (* parseGroupingSets: one set is ( [expr {, expr}] ) or a single expression without parentheses *)
+  Definition parse_gs_set (d : nat) (ts : list token) : outcome (list gexpr * list token) :=
+    if isT (cur ts) TyLParen then
+      let ts := advance ts in
+      if isT (cur ts) TyRParen then Val ([], advance ts)
+      else do (l, ts1) <- grouping_exprs (S (length ts)) d [] ts; Val (l, advance ts1)
+    else do (e, ts1) <- pe d ts; Val ([e], ts1).
+  Fixpoint gs_sets (n : nat) (d : nat) (acc : list (list gexpr)) (ts : list token) : outcome (list (list gexpr) * list token) :=
+    match n with
+    | 0 => OutOfFuel
+    | S n' =>
+        do (st, ts1) <- parse_gs_set d ts;
+        if isT (cur ts1) TyRParen then Val (acc ++ [st], ts1)
+        else if negb (isT (cur ts1) TyComma) then Err EExpected
+        else gs_sets n' d (acc ++ [st]) (advance ts1)
+    end.
+  (* the cursor is at the compound keyword token GROUPING SETS, or at GROUPING followed by SETS *)
+  Definition parse_grouping_sets (d : nat) (ts : list token) : sres gexpr :=
+    do ts <- (if String.eqb (lit (cur ts)) "GROUPING SETS" then Val (advance ts)
+              else if isT (cur ts) TyGrouping then
+                let ts := advance ts in
+                if negb (String.eqb (lit (cur ts)) "SETS") && negb (isT (cur ts) TySets) then Err EExpected else Val (advance ts)
+              else Val ts);
+    if negb (isT (cur ts) TyLParen) then Err EExpected
+    else
+      let ts := advance ts in
+      do (sets, ts1) <- gs_sets (S (length ts)) d [] ts;
+      Val (GGroupingSets sets, advance ts1).
+
   (* GROUP BY list *)
   Fixpoint group_list (n : nat) (d : nat) (acc : list gexpr) (ts : list token) : outcome (list gexpr * list token) :=
     match n with
@@ -259,7 +283,7 @@ Section Stmt.
           (if isT (cur ts) TyRollup then do (l, ts1) <- parse_grouping_list d (advance ts); Val (GRollup l, ts1)
            else if isT (cur ts) TyCube then do (l, ts1) <- parse_grouping_list d (advance ts); Val (GCube l, ts1)
            else if ((isT (cur ts) TyKeyword || isT (cur ts) TyGroupingSets) && String.eqb (lit (cur ts)) "GROUPING SETS")
-                   || (isT (cur ts) TyGrouping && eqfold (lit (peek ts)) "SETS") then Unmodelled
+                   || (isT (cur ts) TyGrouping && eqfold (lit (peek ts)) "SETS") then parse_grouping_sets d ts
            else pe d ts);
         if isT (cur ts1) TyComma then group_list n' d (acc ++ [e]) (advance ts1) else Val (acc ++ [e], ts1)
     end.
@@ -370,6 +394,31 @@ Section Stmt.
         else Val (Some (GFetch ft (Some v) pct false), ts)
     else Val (None, ts).
 
+  (* parseForClause: the words are compared by their text (isTokenMatch = strings.EqualFold) *)
+  Definition ps_for (ts : list token) : outcome (option gfor * list token) :=
+    if isT (cur ts) TyFor then
+      let ts := advance ts in
+      do (lk, ts) <-
+        (if litfold (cur ts) "UPDATE" then Val ("UPDATE", advance ts)
+         else if litfold (cur ts) "SHARE" then Val ("SHARE", advance ts)
+         else if litfold (cur ts) "NO" then
+           let ts := advance ts in
+           if negb (litfold (cur ts) "KEY") then Err EExpected
+           else
+             let ts := advance ts in
+             if negb (litfold (cur ts) "UPDATE") then Err EExpected else Val ("NO KEY UPDATE", advance ts)
+         else if litfold (cur ts) "KEY" then
+           let ts := advance ts in
+           if negb (litfold (cur ts) "SHARE") then Err EExpected else Val ("KEY SHARE", advance ts)
+         else Err EExpected);
+      do (tables, ts) <- (if litfold (cur ts) "OF" then let ts := advance ts in ident_list (S (length ts)) [] ts else Val ([], ts));
+      if litfold (cur ts) "NOWAIT" then Val (Some (GFor lk tables true false), advance ts)
+      else if litfold (cur ts) "SKIP" then
+        let ts := advance ts in
+        if negb (litfold (cur ts) "LOCKED") then Err EExpected else Val (Some (GFor lk tables false true), advance ts)
+      else Val (Some (GFor lk tables false false), ts)
+    else Val (None, ts).
+
   (* parseSelectStatement: the SELECT keyword is already consumed *)
   Definition parse_select (d0 : nat) (ts : list token) : sres gselect :=
     if md <? S d0 then Err EDepth
@@ -390,8 +439,8 @@ Section Stmt.
           do (lim, ts) <- ps_limit ts;
           do (off, ts) <- ps_offset ts;
           do (fe, ts) <- ps_fetch ts;
-          if isT (cur ts) TyFor then Unmodelled
-          else Val (GSelect None (fst dd) (snd dd) cols (snd (fst fj)) (fst (fst fj)) (snd fj) wh gb hv ob lim off fe None, ts).
+          do (fo, ts) <- ps_for ts;
+          Val (GSelect None (fst dd) (snd dd) cols (snd (fst fj)) (fst (fst fj)) (snd fj) wh gb hv ob lim off fe fo, ts).
 
   (* parseSelectWithSetOperations: the first SELECT keyword is already consumed *)
   Fixpoint setops_loop (n : nat) (d : nat) (left : gstmt) (ts : list token) : sres gstmt :=
@@ -532,6 +581,116 @@ Section Stmt.
       do (ret, ts) <- parse_returning d (skip_limit ts);
       Val (GDelete None tname "" [] wh ret, ts).
 
+  (* ---- MERGE ---- *)
+  (* the optional alias of the target / source: AS alias, or a word that can be an alias and is not the keyword that follows
+     ([kwt] / [kws]: USING after the target, ON after the source) *)
+  Definition parse_merge_alias (kwt : tty) (kws : string) (ts : list token) : outcome (string * list token) :=
+    if isT (cur ts) TyAs then
+      let ts := advance ts in
+      if negb (is_identifier (cur ts)) && negb (is_nonreserved (cur ts)) then Err EExpected
+      else Val (lit (cur ts), advance ts)
+    else if can_be_alias (cur ts) && negb (isT (cur ts) kwt) && negb (String.eqb (lit (cur ts)) kws) then Val (lit (cur ts), advance ts)
+    else Val (""%string, ts).
+
+  (* SET clauses of WHEN ... THEN UPDATE: `for { [t .] column = expr; if !comma break }` *)
+  Fixpoint merge_set_list (n : nat) (d : nat) (acc : list (string * gexpr)) (ts : list token) : outcome (list (string * gexpr) * list token) :=
+    match n with
+    | 0 => OutOfFuel
+    | S n' =>
+        if negb (is_identifier (cur ts)) && negb (can_be_alias (cur ts)) then Err EExpected
+        else
+          let c := lit (cur ts) in
+          let ts := advance ts in
+          do (c, ts) <-
+            (if isT (cur ts) TyPeriod then
+               let ts := advance ts in
+               if negb (is_identifier (cur ts)) && negb (can_be_alias (cur ts)) then Err EExpected
+               else Val ((c ++ "." ++ lit (cur ts))%string, advance ts)
+             else Val (c, ts));
+          if negb (isT (cur ts) TyEq) then Err EExpected
+          else
+            do (e, ts1) <- rewrap EInvalid (pe d (advance ts));
+            let acc := acc ++ [(c, e)] in
+            if isT (cur ts1) TyComma then merge_set_list n' d acc (advance ts1) else Val (acc, ts1)
+    end.
+
+  (* parseMergeAction *)
+  Definition parse_merge_action (d : nat) (kind : string) (ts : list token) : sres gaction :=
+    if isT (cur ts) TyUpdate then
+      let ts := advance ts in
+      if negb (isT (cur ts) TySet) then Err EExpected
+      else
+        let ts := advance ts in
+        do (sets, ts1) <- merge_set_list (S (length ts)) d [] ts;
+        Val (GAction "UPDATE" sets [] [] false, ts1)
+    else if isT (cur ts) TyInsert then
+      if String.eqb kind "MATCHED" || String.eqb kind "NOT_MATCHED_BY_SOURCE" then Err EInvalid
+      else
+        let ts := advance ts in
+        do (cols, ts) <- (if isT (cur ts) TyLParen then paren_ident_list ts else Val ([], ts));
+        if isT (cur ts) TyDefault then
+          let ts := advance ts in
+          if negb (isT (cur ts) TyValues) then Err EExpected else Val (GAction "INSERT" [] cols [] true, advance ts)
+        else if isT (cur ts) TyValues then
+          let ts := advance ts in
+          if negb (isT (cur ts) TyLParen) then Err EExpected
+          else
+            let ts := advance ts in
+            do (vals, ts1) <- rewrap EInvalid (expr_list (S (length ts)) d [] ts);
+            if negb (isT (cur ts1) TyRParen) then Err EExpected else Val (GAction "INSERT" [] cols vals false, advance ts1)
+        else Err EExpected
+    else if isT (cur ts) TyDelete then
+      if String.eqb kind "NOT_MATCHED" then Err EInvalid else Val (GAction "DELETE" [] [] [] false, advance ts)
+    else Err EExpected.
+
+  (* parseMergeWhenClause: cursor at WHEN *)
+  Definition parse_merge_when (d : nat) (ts : list token) : sres gwhen :=
+    let ts := advance ts in
+    do (kind, ts) <-
+      (if isT (cur ts) TyMatched || String.eqb (lit (cur ts)) "MATCHED" then Val ("MATCHED", advance ts)
+       else if isT (cur ts) TyNot then
+         let ts := advance ts in
+         if negb (isT (cur ts) TyMatched) && negb (String.eqb (lit (cur ts)) "MATCHED") then Err EExpected
+         else
+           let ts := advance ts in
+           if isT (cur ts) TyBy then
+             let ts := advance ts in
+             if negb (isT (cur ts) TySource) && negb (String.eqb (lit (cur ts)) "SOURCE") then Err EExpected
+             else Val ("NOT_MATCHED_BY_SOURCE", advance ts)
+           else Val ("NOT_MATCHED", ts)
+       else Err EExpected);
+    do (cond, ts) <- (if isT (cur ts) TyAnd then do (c, ts1) <- rewrap EInvalid (pe d (advance ts)); Val (Some c, ts1) else Val (None, ts));
+    if negb (isT (cur ts) TyThen) then Err EExpected
+    else
+      do (a, ts1) <- parse_merge_action d kind (advance ts);
+      Val (GWhen kind cond a, ts1).
+
+  Fixpoint merge_whens (n : nat) (d : nat) (acc : list gwhen) (ts : list token) : outcome (list gwhen * list token) :=
+    match n with
+    | 0 => OutOfFuel
+    | S n' =>
+        if isT (cur ts) TyWhen then do (w, ts1) <- parse_merge_when d ts; merge_whens n' d (acc ++ [w]) ts1
+        else Val (acc, ts)
+    end.
+
+  (* parseMergeStatement: MERGE already consumed; parseTableReference = a qualified name *)
+  Definition parse_merge (d : nat) (ts : list token) : sres gstmt :=
+    let ts := if isT (cur ts) TyInto then advance ts else ts in
+    do (target, ts) <- rewrap EInvalid (parse_qualified_name ts);
+    do (talias, ts) <- parse_merge_alias TyUsing "USING" ts;
+    if negb (isT (cur ts) TyUsing) && negb (String.eqb (lit (cur ts)) "USING") then Err EExpected
+    else
+      do (source, ts) <- rewrap EInvalid (parse_qualified_name (advance ts));
+      do (salias, ts) <- parse_merge_alias TyOn "ON" ts;
+      if negb (isT (cur ts) TyOn) then Err EExpected
+      else
+        do (on, ts) <- rewrap EInvalid (pe d (advance ts));
+        do (whens, ts) <- merge_whens (S (length ts)) d [] ts;
+        match whens with
+        | [] => Err EExpected
+        | _ => Val (GMerge target talias source salias on whens, ts)
+        end.
+
   (* parseCommonTableExpr *)
   Definition parse_cte (d0 : nat) (ts : list token) : sres gcte :=
     if md <? S d0 then Err EDepth
@@ -584,8 +743,8 @@ Section Stmt.
          else Err EExpected);
     Val (set_with w main, ts).
 
-  (* statement keywords whose parsers are not modelled: CREATE ALTER DROP MERGE REFRESH TRUNCATE SHOW DESCRIBE EXPLAIN *)
-  Definition other_statement_types : list N := [240; 241; 242; 370; 375; 378; 518; 519; 520]%N.
+  (* statement keywords whose parsers are not modelled: CREATE ALTER DROP REFRESH TRUNCATE SHOW DESCRIBE EXPLAIN *)
+  Definition other_statement_types : list N := [240; 241; 242; 375; 378; 518; 519; 520]%N.
   (* parseStatement *)
   Definition parse_statement (d : nat) (ts : list token) : sres gstmt :=
     let t := cur ts in
@@ -594,6 +753,7 @@ Section Stmt.
     else if isT t TyInsert then parse_insert d (advance ts)
     else if isT t TyUpdate then parse_update d (advance ts)
     else if isT t TyDelete then parse_delete d (advance ts)
+    else if isT t TyMerge then parse_merge d (advance ts)
     else if isT t TyReplace then Unmodelled
     else match ty t with
          | TyOther n => if existsb (N.eqb n) other_statement_types then Unmodelled else Err EExpected
